@@ -297,6 +297,19 @@ def operator_scan(P, R, rule='C18.TAB.4'):
         if ev['k'] == 'store' and is_var(ev.get('lhs'), sw) and ev.get('op') == '=' and isinstance(const_of(ev.get('rhs')), int):
             n += 1
             R.ob(rule, bool(before.get(s.key)), s, 'the operator code %s can be reached: the bytes tested on the way are consistent' % const_of(ev['rhs']), key='op-reachable:%s' % const_of(ev['rhs']))
+    # the documented operators (<, <=, =, >=, >) all start with a character the scan looks for
+    tested = set()
+    for bid in p.reachable_blocks():
+        for e in p.out[bid]:
+            r = e.rel()
+            first = isinstance(r[0], dict) and ((r[0].get('k') == 'idx' and is_var(r[0].get('base'), res['ptr']) and const_of(r[0].get('index')) == 0) or (r[0].get('k') == 'un' and r[0].get('op') == '*' and is_var(r[0].get('e'), res['ptr']))) if r else False
+            if r and r[1] == '==' and isinstance(const_of(r[2]), int) and first:
+                tested.add(chr(const_of(r[2]) & 255))
+            if e.label == 'case' and e.cond is not None and isinstance(e.cond, dict) and ((e.cond.get('k') == 'idx' and is_var(e.cond.get('base'), res['ptr']) and const_of(e.cond.get('index')) == 0) or (e.cond.get('k') == 'un' and e.cond.get('op') == '*' and is_var(e.cond.get('e'), res['ptr']))):
+                tested |= {chr(v & 255) for v in (e.vs or [])}
+    for ch in '<>=':
+        n += 1
+        R.ob(rule, ch in tested, p, 'the operator scan looks for %r (a severity written with it is part of the documented syntax)' % ch, key='op-char:%s' % ch)
     # ... and every case of the operator switch is the code of some operator: a code nothing assigns is a range form that
     # can no longer be written (its operator now selects another case's severities)
     cases = set()
@@ -396,4 +409,6 @@ def run(P, R, tier):
     # destination reference counts do not wrap
     rules.narrowing_fields(P, R, 'C18.WID.1', ('src/log.c',))
     rules.counter_widths(P, R, 'C18.WID.2', recs=('log_destination', 'log_destination_vector', 'log_type'))
+    # a facility is found again by its name: the registry keeps its own copy of it
+    rules.param_string_escapes(P, R, 'C18.OWN.9', ('src/log.c',))
     return EXPLANATION, ASSUMPTIONS
